@@ -87,6 +87,9 @@ def _collect(prop, case, st):
     from .gen import case_hash, dump_case
     import signal
 
+    if sum(b["count"] for k, b in st["buckets"].items() if k[0].endswith("hang")) >= 2:
+        st["skipped_after_hang"] = st.get("skipped_after_hang", 0) + 1
+        return None          # hangs are expensive to confirm: two confirmed ones per job are enough
     limit = int(getattr(prop, "CASE_TIMEOUT_S", 120))
     try:
         signal.signal(signal.SIGALRM, _alarm)
